@@ -345,7 +345,7 @@ def input_tags(tree, out, ser, top=True, recreate_pos=True):
                 # msgpack's object_hook is bottom-up: everything is a recreation position there.
                 # The others do not look inside a tagged dict, except for the wrapper's 'exception' member.
                 inner = recreate_pos and (ser == "msgpack" or (k == "exception" and tree["__class__"] in ("Pyro5.core._ExceptionWrapper", b"Pyro5.core._ExceptionWrapper")
-                                                                and isinstance(x, dict)))
+                                                                and isinstance(x, dict) and "__class__" in x))
                 input_tags(x, out, ser, False, inner)
         else:
             for x in tree.values():
